@@ -815,8 +815,15 @@ func main() {
 	par := flag.Int("par", 6, "parallel workers")
 	batchSz := flag.Int("batch", 60, "cases per worker process")
 	budgetS := flag.Int("budget-s", 0, "overall time budget of the parent in seconds (0 = none): batches not started by then are skipped")
+	qpContract := flag.Bool("qpcontract", false, "print the report on strconv.QuotedPrefix over the label-document rows of --seed (one JSON line) and exit")
 	fl := hx.ParseFlags()
 	deadline := time.Duration(*deadlineMs) * time.Millisecond
+	if *qpContract {
+		out := hx.OpenOut(fl.Out)
+		out.Put(qpContractReport(fl.Seed, fl.N))
+		out.Close()
+		return
+	}
 	if *isWorker {
 		worker(fl.Cases, fl.Out, deadline, *memMB)
 		return
